@@ -475,7 +475,7 @@ func (c *Ctl) Cycle(cv int, dt int) (req int, cerr error) {
 		req = -1
 	}
 	ev := Ev{
-		"ev": "Cycle", "cv": cv, "dt": dt, "raced": c.raced, "wfail": c.wfail,
+		"ev": "Cycle", "cv": cv, "dt": dt, "raced": c.raced, "wfail": c.wfail, "cfail": c.Curve.Err != nil,
 		"lt": c.Loop.target, "lc": c.Loop.current, "lo": c.Loop.out, "lcalls": c.Loop.calls - calls,
 		"req": req, "last": st.LastSetPwm, "err": cerr != nil,
 		"wrote": wrote, "nw": len(writes), "mw": modeWrites,
